@@ -47,6 +47,14 @@ type c30Child struct {
 
 func c30ChildMain(t *testing.T) {
 	t.Helper()
+	if os.Getenv("VERIF_C30_CHILD") == "seeds" {
+		b, _ := json.Marshal(c30BuildSeeds())
+		if err := os.WriteFile(os.Getenv("VERIF_C30_SEEDS"), b, 0o644); err != nil {
+			t.Fatalf("write seeds: %v", err)
+		}
+
+		return
+	}
 	var ph, lo, hi int
 	if _, err := fmt.Sscanf(os.Getenv("VERIF_C30_CHILD"), "%d:%d:%d", &ph, &lo, &hi); err != nil {
 		t.Fatalf("bad VERIF_C30_CHILD: %v", err)
@@ -61,7 +69,12 @@ func c30ChildMain(t *testing.T) {
 	}
 	c := &c30Child{run: kit.Start(t, "C30", ""), out: out, cur: cur, count: map[string]int{}}
 	if ph == c30PhFresh || ph == c30PhLive {
-		c.seeds = c30BuildSeeds()
+		if b, err := os.ReadFile(os.Getenv("VERIF_C30_SEEDS")); err == nil {
+			_ = json.Unmarshal(b, &c.seeds)
+		}
+		if len(c.seeds) == 0 {
+			c.seeds = c30BuildSeeds()
+		}
 	}
 	for k := lo; k < hi; k++ {
 		c.gcase = ph*c30Stride + k
